@@ -543,7 +543,9 @@ Section Session.
        wf_final (ws_file s1) = Some (roots, st)).
     Proof.
       intros HI. unfold st_finalize. rewrite (fi_opts _ _ HI).
-      destruct (ws_finalized s) eqn:Ef; [intros H; inversion H; subst; split; [exact HI|discriminate]|].
+      destruct (ws_finalized s) eqn:Ef.
+      { intros H; inversion H; subst. split; [|discriminate].
+        constructor; [apply HI|apply HI|apply HI|]. left. apply dead_st. right. reflexivity. }
       destruct (ws_closed s) eqn:Ec; [intros H; inversion H; subst; split; [exact HI|discriminate]|].
       pose proof (clean_of_finv_st _ _ HI Ec Ef) as HC.
       destruct (w_v1 o) eqn:Ev1.
